@@ -242,9 +242,9 @@ PROPS["C07"] = {
     "level": "model_checking",
     "explanation": "WRITE with every stability level and both settings of the server's unstable option, and WRITE(UNSTABLE);COMMIT, executed symbolically with the journal monitor: committed level not weaker than requested, anything above UNSTABLE durable before the reply, COMMIT flushes every earlier append, data readable at once; write verifier equal within an instance and different between two instances (clock contract: successive readings differ)",
     "assumptions": JOURNAL + ["time.Now returns distinct, increasing instants (clock contract)", "suffix-only loss of unflushed transactions is the journal's group-commit property (C01 K-harness / dependency)"],
-    "outside": ["crash images of the journal itself", "more than one unstable write before the COMMIT"],
+    "outside": ["crash images of the journal itself", "more than two unstable writes before the COMMIT", "suffix-only loss of unflushed transactions in the memory log"],
     "harnesses": [H("nfs.VerifC07Write", covers=("stable", "unstable", "err"), q=dict(STEPQ, inums=1), t=STEPT, lmax=2, budget_s=300, budget_s_t=1200),
-                  H("nfs.VerifC07Commit", covers=("end",), q=dict(STEPQ, inums=1), t=STEPT, lmax=2, budget_s=300, budget_s_t=1200)],
+                  H("nfs.VerifC07Commit", covers=("end", "two-writes"), q=dict(STEPQ, inums=1), t=STEPT, lmax=2, budget_s=300, budget_s_t=1200)],
 }
 
 PROPS["C01"] = {
